@@ -120,6 +120,24 @@ def run(ch, build):
         steps.append({"op": "cmd", "conn": "session", "cmd": rng.choice(spool), "script": ["busy", "ok"]})
         steps.append({"op": "cmd", "conn": "session", "cmd": rng.choice(spool), "script": ["c3"] * 6, "cancel_ms": 75})
         scns.append({"bmc": conn.default_bmc(seed=5000 + h, suites=[[100, su[0], su[1], su[2]]]), "timeout_ms": 40, "backoff_ms": 50, "steps": steps})
+    # a parseable packet WITHOUT an IPMI message (a late Open Session Response) read after a temporary completion code:
+    # it is not a response to the command and must not be counted as one
+    stray = "raw:0600ff07061100000000000000000800" "0001000001000000"
+    for h in range(3 if ch.quick() else 20):
+        pool = [c for c in hist.command_pool(rng, False) if c["name"] in conn.SESSIONLESS_OK]
+        steps = []
+        for sc in (["busy", stray, "ok"], ["c3", stray, stray, "ok"], ["busy", stray, "busy", stray, "cc:204"], [stray, "ok"]):
+            steps.append({"op": "cmd", "conn": "sessionless", "cmd": rng.choice(pool), "script": sc})
+        scns.append({"bmc": conn.default_bmc(seed=7000 + h), "timeout_ms": 40, "steps": steps})
+    # commands that share one operation but have different names (the five Get DCMI Capabilities Info selectors), back to back
+    for h in range(2 if ch.quick() else 12):
+        su = rng.choice(hist.SUITES)
+        steps = [hs.open_step(suites=[su])]
+        order = list(range(1, 6)); rng.shuffle(order)
+        for sc in (["ok"], ["truncbody"], ["busy", "ok"]):
+            for pnum in order:
+                steps.append({"op": "cmd", "conn": "session", "cmd": {"name": "dcmicaps", "p": [pnum]}, "script": sc})
+        scns.append({"bmc": conn.default_bmc(seed=8000 + h, suites=[[100, su[0], su[1], su[2]]]), "timeout_ms": 40, "steps": steps})
     outs = conn.run_scenarios(scns)
 
     got = {}
